@@ -79,7 +79,7 @@ def _general_model(r):
 def _obs_setup(r, states, params, case):
     nobs = 1 if len(states) == 1 or r.random() < 0.45 else 2
     obs = r.sample(states, nobs)
-    if r.random() < 0.7:
+    if r.random() < 0.6:
         obs = sorted(obs, key=states.index)           # ascending order most of the time; any order otherwise
     tgt = None
     if len(params) >= 2 and r.random() < 0.4:
@@ -241,7 +241,7 @@ def run_case(case):
     if base is None:
         return {"nontrivial": False, "mismatches": mism, "violations": viol, "tags": tags + ["integration-skipped"]}
     rs = np.random.default_rng(case["noise_seed"])
-    y = base[:, oidx] * (1.0 + 0.15 * rs.standard_normal((n, p_))) + 0.05 * rs.standard_normal((n, p_))
+    y = base[:, oidx] * (1.0 + 0.3 * rs.standard_normal((n, p_))) + 0.1 * rs.standard_normal((n, p_))
     W = np.ones((n, p_))
     wraw = case["weights"]
     if wraw is not None:
